@@ -19,7 +19,7 @@ Lemma add_accepted k a1 a2 a3 s s' r cbs cmds :
   (forall k' id, k' <> k \/ id <> next_corr s -> lookup id (getm k' s') = lookup id (getm k' s)).
 Proof. unfold do_add. destruct (driver_active s) eqn:Ea; cbn [negb]; [|intros H; inversion H].
   destruct (closed s) eqn:Ec; [intros H; inversion H|].
-  destruct (kind_eqb k KCtr && ((MAX_KEY <? a2) || (MAX_LABEL <? a3))); [intros H; inversion H|].
+  destruct (add_illegal k a1 a2 a3); [intros H; inversion H|].
   destruct (ring_full s); [intros H; inversion H|].
   intros H. inversion H; subst. clear H. repeat split; auto.
   - rewrite getm_setm_same. apply lookup_ins_same.
@@ -35,15 +35,32 @@ Lemma add_rejected k a1 a2 a3 s s' e cbs cmds :
   (s' = s \/ (ring_full s = true /\ e = IllegalState /\ s' = set_next_corr (next_corr s + 1) s)) /\ cbs = [] /\ cmds = [].
 Proof. unfold do_add. destruct (negb (driver_active s)); [intros H; inversion H; auto|].
   destruct (closed s); [intros H; inversion H; auto|].
-  destruct (kind_eqb k KCtr && ((MAX_KEY <? a2) || (MAX_LABEL <? a3))); [intros H; inversion H; auto|].
+  destruct (add_illegal k a1 a2 a3); [intros H; inversion H; auto|].
   destruct (ring_full s); intros H; inversion H; auto. Qed.
+
+(* why an add is refused: the driver is inactive, the client closed, the arguments illegal (a counter key / label over its
+   limit, a command that does not fit the 512-byte command buffer), or the ring refused the write *)
+Lemma add_refused_why k a1 a2 a3 s s' e cbs cmds :
+  do_add k a1 a2 a3 s = (s', (Err e, cbs, cmds)) ->
+  (e = DriverInactive /\ driver_active s = false) \/ (e = Closed /\ closed s = true) \/
+  (e = IllegalArg /\ add_illegal k a1 a2 a3 = true) \/ (e = IllegalState /\ ring_full s = true).
+Proof. unfold do_add. destruct (driver_active s) eqn:Ea; cbn [negb]; [|intros H; inversion H; auto].
+  destruct (closed s) eqn:Ec; [intros H; inversion H; auto|].
+  destruct (add_illegal k a1 a2 a3) eqn:Ei; [intros H; inversion H; auto|].
+  destruct (ring_full s) eqn:Er; intros H; inversion H; auto 6. Qed.
+
+(* an add with legal arguments on an open client with an active driver and room in the ring is accepted *)
+Lemma add_legal_accepted k a1 a2 a3 s :
+  driver_active s = true -> closed s = false -> add_illegal k a1 a2 a3 = false -> ring_full s = false ->
+  exists s', do_add k a1 a2 a3 s = (s', (Ok [next_corr s], [], [Cmd (add_cmd_type k a1) (client_id s) (next_corr s) (add_cmd_args k a1 a2 a3)])).
+Proof. intros Ha Hc Hi Hr. unfold do_add. rewrite Ha, Hc, Hi, Hr. cbn [negb]. eauto. Qed.
 
 Lemma add_result k a1 a2 a3 s :
   let r := fst (fst (snd (do_add k a1 a2 a3 s))) in
   r = Ok [next_corr s] \/ r = Err DriverInactive \/ r = Err Closed \/ r = Err IllegalArg \/ r = Err IllegalState.
 Proof. unfold do_add. destruct (negb (driver_active s)); cbn; auto.
   destruct (closed s); cbn; auto.
-  destruct (kind_eqb k KCtr && ((MAX_KEY <? a2) || (MAX_LABEL <? a3))); cbn; auto.
+  destruct (add_illegal k a1 a2 a3); cbn; auto.
   destruct (ring_full s); cbn; auto 6. Qed.
 
 Lemma fresh_id s k : inv s -> lookup (next_corr s) (getm k s) = None /\ client_id s <> next_corr s.
@@ -141,7 +158,8 @@ Proof. destruct o; cbn [step].
     + pose proof (on_event_ids e s) as H1. destruct (on_event e s) as [[s1 cbs1] hang1]. cbn [fst] in H1.
       destruct hang1; cbn; [intuition|].
       pose proof (heartbeat_check_ids c s1) as H. destruct (heartbeat_check c s1) as [[[s2 cbs2] hang2] r]. cbn [fst] in H.
-      destruct hang2; cbn; intuition congruence. Qed.
+      destruct hang2; cbn; intuition congruence.
+  - unfold do_close_handle, one_or_none. destruct k; try (cbn; tauto); destruct (user_obj _ r s); cbn; tauto. Qed.
 
 (* strictly increasing, starting at n or above *)
 Fixpoint increasing_from (n : Z) (l : list Z) : Prop :=
@@ -377,8 +395,15 @@ Proof. unfold on_error.
   destruct (lookup corr (dests s)) eqn:E5. { apply (H KDest e E5). }
   apply keeps_refl. Qed.
 
-Lemma on_event_keeps k r ev s : inv s -> keeps k r s (fst (fst (on_event ev s))) \/ closed (fst (fst (on_event ev s))) = true.
-Proof. intros I. destruct ev; cbn [on_event].
+(* a channel endpoint error makes the conductor close and forget handles the user holds: it is the one event (besides the
+   ones that close the client) after which a held handle is no longer the registered one (Proofs/ConductorChan.v) *)
+Definition is_chan_error (ev : event) : bool := match ev with EvChanError _ => true | _ => false end.
+Definition chan_op (o : op) : bool := match o with DoWork (BEvent (EvChanError _)) => true | _ => false end.
+Definition no_chan (ops : list op) : Prop := forall x, ~ In (DoWork (BEvent (EvChanError x))) ops.
+
+Lemma on_event_keeps k r ev s : inv s -> is_chan_error ev = false ->
+  keeps k r s (fst (fst (on_event ev s))) \/ closed (fst (fst (on_event ev s))) = true.
+Proof. intros I Hnc. destruct ev; cbn [on_event].
   - left. destruct (lookup corr (pubs s)) as [e|] eqn:El; [|apply keeps_refl]. destruct (is_awaiting e); [|apply keeps_refl].
     cbn [fst]. apply (keeps_upd_at k r KPub corr _ s e El). intros o Ho _. exists o. split; [exact Ho|apply obj_same_refl].
   - left. destruct (lookup id (xpubs s)) as [e|] eqn:El; [|apply keeps_refl]. destruct (is_awaiting e); [|apply keeps_refl].
@@ -401,7 +426,8 @@ Proof. intros I. destruct ev; cbn [on_event].
     destruct (inv_lookup s KCtr corr e I El) as [_ He]. rewrite (is_awaiting_obj e He Ea) in Ho. discriminate.
   - left. apply keeps_refl.
   - destruct ((cid =? client_id s) && negb (closed s)); [|left; apply keeps_refl].
-    right. pose proof (close_all_closed s) as H. destruct (close_all s) as [[s1 cbs] hang]. exact H. Qed.
+    right. pose proof (close_all_closed s) as H. destruct (close_all s) as [[s1 cbs] hang]. exact H.
+  - discriminate. Qed.
 
 (* "stable": user-held handles keep their identity unless the client closes; closed is absorbing *)
 Definition stable (s s' : st) : Prop :=
@@ -450,13 +476,21 @@ Proof. intros Hc. destruct ev; cbn [on_event]; repeat dmatch; cbn [fst]; rewrite
   - unfold on_error. repeat dmatch; rewrite ?setm_closed; auto.
   - pose proof (close_all_closed s) as H. rewrite Heqp in H. exact H. Qed.
 
-Lemma on_event_stable ev s : inv s -> stable s (fst (fst (on_event ev s))).
-Proof. intros I. split; [intros; apply on_event_keeps; auto|apply on_event_closed_mono]. Qed.
+Lemma on_event_stable ev s : inv s -> is_chan_error ev = false -> stable s (fst (fst (on_event ev s))).
+Proof. intros I Hnc. split; [intros; apply on_event_keeps; auto|apply on_event_closed_mono]. Qed.
 
-Lemma do_work_stable c b s : inv s -> stable s (fst (do_work c b s)).
-Proof. intros I. unfold do_work. destruct b; try apply stable_refl.
+(* closed is absorbing under every duty cycle, channel endpoint errors included *)
+Lemma do_work_closed_mono c b s : closed s = true -> closed (fst (do_work c b s)) = true.
+Proof. intros Hc. unfold do_work. destruct b; auto.
+  - destruct (heartbeat_check_stable c s) as [_ H]. cbn. destruct (heartbeat_check c s) as [[[s2 cbs2] hang2] r]. destruct hang2; cbn [fst] in *; auto.
+  - pose proof (on_event_closed_mono e s Hc) as H1. destruct (on_event e s) as [[s1 cbs1] hang1]. cbn [fst] in *. destruct hang1; [exact H1|].
+    destruct (heartbeat_check_stable c s1) as [_ H]. destruct (heartbeat_check c s1) as [[[s2 cbs2] hang2] r]. destruct hang2; cbn [fst] in *; auto. Qed.
+
+Lemma do_work_stable c b s : inv s -> chan_op (DoWork b) = false -> stable s (fst (do_work c b s)).
+Proof. intros I Hnc. unfold do_work. destruct b; try apply stable_refl.
   - pose proof (heartbeat_check_stable c s) as H. cbn. destruct (heartbeat_check c s) as [[[s2 cbs2] hang2] r]. destruct hang2; exact H.
-  - pose proof (on_event_stable e s I) as H1. pose proof (on_event_inv e s I) as I1.
+  - assert (Hnc' : is_chan_error e = false) by (destruct e; auto).
+    pose proof (on_event_stable e s I Hnc') as H1. pose proof (on_event_inv e s I) as I1.
     destruct (on_event e s) as [[s1 cbs1] hang1]. cbn [fst] in *. destruct hang1; [exact H1|].
     pose proof (heartbeat_check_stable c s1) as H. destruct (heartbeat_check c s1) as [[[s2 cbs2] hang2] r].
     destruct hang2; cbn [fst] in *; eapply stable_trans; eauto. Qed.
@@ -470,9 +504,9 @@ Lemma do_release_closed_eq k r imgs s : closed (fst (do_release k r imgs s)) = c
 Proof. apply do_release_closed. Qed.
 
 (* every operation except dropping (k, r) itself *)
-Lemma step_stable c s o k r : inv s -> o <> DropHandle k r ->
+Lemma step_stable c s o k r : inv s -> o <> DropHandle k r -> chan_op o = false ->
   (keeps k r s (fst (step c s o)) \/ closed (fst (step c s o)) = true) /\ (closed s = true -> closed (fst (step c s o)) = true).
-Proof. intros I Hne. destruct o; cbn [step].
+Proof. intros I Hne Hnc. destruct o; cbn [step].
   - split; [left; apply do_add_keeps; auto|]. intros Hc. unfold do_add. rewrite Hc. repeat dmatch; auto.
   - split; [left; apply do_find_keeps|]. intros Hc. rewrite find_closed; auto.
   - split.
@@ -486,7 +520,9 @@ Proof. intros I Hne. destruct o; cbn [step].
   - cbn [fst]. split; auto. left. apply keeps_same_maps. intros kk; destruct kk; reflexivity.
   - cbn [fst]. split; auto. left. apply keeps_same_maps. intros kk; destruct kk; reflexivity.
   - cbn [fst]. split; auto. left. apply keeps_same_maps. intros kk; destruct kk; reflexivity.
-  - destruct (do_work_stable c b s I) as [A B]. split; auto. Qed.
+  - destruct (do_work_stable c b s I Hnc) as [A B]. split; auto.
+  - unfold do_close_handle. destruct k0; try (split; [left; apply keeps_refl|auto]); destruct (user_obj _ r0 s); cbn [fst];
+      try (split; [left; apply keeps_refl|auto]); (split; [left; apply keeps_same_maps; intros kk; destruct kk; reflexivity|auto]). Qed.
 
 Lemma keeps_held k r h s s' : keeps k r s s' -> held k r h s -> held k r h s'.
 Proof. intros K (o & Ho & Hu & Hh). destruct (K o Ho Hu) as (o' & Ho' & S). exists o'. unfold obj_same in S. intuition congruence. Qed.
@@ -494,16 +530,18 @@ Proof. intros K (o & Ho & Hu & Hh). destruct (K o Ho Hu) as (o' & Ho' & S). exis
 (* C09: while the handle is held (no drop of it in the history), every lookup returns that same handle,
    or reports that the client has been closed *)
 Lemma find_same_while_held c k r h : k <> KDest -> forall ops s,
-  inv s -> (held k r h s \/ closed s = true) -> ~ In (DropHandle k r) ops ->
+  inv s -> (held k r h s \/ closed s = true) -> ~ In (DropHandle k r) ops -> no_chan ops ->
   Forall (fun p => fst p = Find k r -> snd p = (Ok [h], [], []) \/ snd p = (Err Closed, [], []))
          (combine ops (snd (run c s ops))).
-Proof. intros Hk. induction ops as [|o ops IH]; intros s I Hh Hnd; cbn; [constructor|].
+Proof. intros Hk. induction ops as [|o ops IH]; intros s I Hh Hnd Hnch; cbn; [constructor|].
   assert (Hne : o <> DropHandle k r) by (intros ->; apply Hnd; left; reflexivity).
-  pose proof (step_inv c s o I) as I1. pose proof (step_stable c s o k r I Hne) as [S1 S2].
+  assert (Hnc : chan_op o = false).
+  { destruct o; auto. destruct b; auto. destruct e; auto. exfalso. apply (Hnch x). left. reflexivity. }
+  pose proof (step_inv c s o I) as I1. pose proof (step_stable c s o k r I Hne Hnc) as [S1 S2].
   destruct (step c s o) as [s1 x] eqn:Es. cbn [fst] in *.
   assert (Hh1 : held k r h s1 \/ closed s1 = true).
   { destruct Hh as [Hh|Hc]; [|right; auto]. destruct S1 as [K|Hc]; [left; eapply keeps_held; eauto|right; auto]. }
-  specialize (IH s1 I1 Hh1 (fun H => Hnd (or_intror H))). destruct (run c s1 ops) as [s2 xs]. cbn [snd] in *.
+  specialize (IH s1 I1 Hh1 (fun H => Hnd (or_intror H)) (fun x H => Hnch x (or_intror H))). destruct (run c s1 ops) as [s2 xs]. cbn [snd] in *.
   constructor; auto. cbn. intros ->. cbn [step] in Es.
   destruct (closed s) eqn:Ec.
   - rewrite find_closed in Es by auto. inversion Es. auto.
@@ -677,6 +715,7 @@ Proof. destruct o; cbn [step].
     + pose proof (on_event_cs e s) as H1. destruct (on_event e s) as [[s1 cbs1] hang1]. cbn in H1. destruct hang1; cbn [fst snd filter]; auto.
       pose proof (heartbeat_check_scalars_cs c s1) as H. destruct (heartbeat_check c s1) as [[[s2 cbs2] hang2] r].
       destruct hang2; cbn [fst snd filter] in *; split; auto; congruence.
+  - unfold do_close_handle. destruct k; cbn; auto; destruct (user_obj _ r s); cbn; auto.
 Qed.
 
 (* only SetRingFull changes the ring flag *)
@@ -695,7 +734,8 @@ Proof. destruct o; cbn [step]; try reflexivity.
   - unfold do_work. destruct b; auto.
     + cbn. pose proof (heartbeat_check_scalars_rf c s) as H. destruct (heartbeat_check c s) as [[[s2 cbs2] hang2] r]. destruct hang2; exact H.
     + pose proof (on_event_rf e s) as H1. destruct (on_event e s) as [[s1 cbs1] hang1]. cbn in H1. destruct hang1; [exact H1|].
-      pose proof (heartbeat_check_scalars_rf c s1) as H. destruct (heartbeat_check c s1) as [[[s2 cbs2] hang2] r]. cbn in *. destruct hang2; cbn; congruence. Qed.
+      pose proof (heartbeat_check_scalars_rf c s1) as H. destruct (heartbeat_check c s1) as [[[s2 cbs2] hang2] r]. cbn in *. destruct hang2; cbn; congruence.
+  - unfold do_close_handle. destruct k; cbn; auto; destruct (user_obj _ r s); cbn; auto. Qed.
 
 (* how many ClientClose commands a history writes: one, by its first close, unless the ring refuses it then *)
 Fixpoint close_writes (sent full : bool) (ops : list op) : nat :=
@@ -733,6 +773,7 @@ Definition ev_id (ev : event) : Z :=
   | EvPubReady corr _ _ _ _ _ => corr | EvXPubReady id _ _ _ _ => id | EvSubReady corr _ => corr | EvOpSuccess corr => corr
   | EvError corr _ => corr | EvAvailImage _ _ _ subreg => subreg | EvUnavailImage _ subreg => subreg
   | EvCounterReady corr _ => corr | EvUnavailCounter corr _ => corr | EvClientTimeout cid => cid
+  | EvChanError x => x      (* a channel status indicator id, not a registration id: see is_chan_error *)
   end.
 (* the map an event looks its id up in (None: all of them / none) *)
 Definition ev_kind (ev : event) : option kind :=
@@ -752,10 +793,10 @@ Proof. intros H. unfold on_error. pose proof (H KSub) as H1. pose proof (H KPub)
 (* an answer whose id is not registered in the map of its kind (unknown id, or the id of a registration of another
    kind) changes nothing; only the global counter callbacks fire, as they do for every counter of the driver *)
 Lemma event_unknown ev s :
-  is_client_timeout ev = false ->
+  is_client_timeout ev = false -> is_chan_error ev = false ->
   (match ev_kind ev with Some k => lookup (ev_id ev) (getm k s) = None | None => forall k, lookup (ev_id ev) (getm k s) = None end) ->
   on_event ev s = (s, counter_cbs ev, false).
-Proof. intros Hct H. destruct ev; cbn in *; try rewrite H; try reflexivity; try discriminate.
+Proof. intros Hct Hch H. destruct ev; cbn in *; try rewrite H; try reflexivity; try discriminate.
   rewrite on_error_unknown; auto. Qed.
 
 Lemma on_error_other corr code s k r2 : r2 <> corr -> lookup r2 (getm k (on_error corr code s)) = lookup r2 (getm k s).
@@ -765,9 +806,9 @@ Proof. intros Hne. unfold on_error. repeat dmatch; rewrite ?getm_setm; try refle
 
 (* an event about r1 leaves every registration r2 <> r1 of every kind exactly as it was *)
 Lemma event_isolation ev s k r2 :
-  is_client_timeout ev = false -> r2 <> ev_id ev ->
+  is_client_timeout ev = false -> is_chan_error ev = false -> r2 <> ev_id ev ->
   lookup r2 (getm k (fst (fst (on_event ev s)))) = lookup r2 (getm k s).
-Proof. intros Hct Hne. destruct ev; cbn [on_event ev_id] in *; try discriminate;
+Proof. intros Hct Hch Hne. destruct ev; cbn [on_event ev_id] in *; try discriminate;
   try (repeat dmatch; cbn [fst]; rewrite ?getm_setm; try reflexivity;
        match goal with |- context [kind_eqb k ?kk] => destruct (kind_eqb k kk) eqn:E end; auto;
        apply kind_eqb_eq in E; subst; apply lookup_upd_other; auto).
@@ -781,8 +822,17 @@ Definition fine (r : res) : Prop := match r with Ok _ | Err _ => True | _ => Fal
 Lemma close_all_no_hang' s s1 cbs hang : close_all s = (s1, cbs, hang) -> hang = false.
 Proof. intros H. pose proof (close_all_no_hang s) as X. rewrite H in X. exact X. Qed.
 
+(* the cached subscriptions a channel endpoint error makes the conductor drop were closed just before (close_and_remove_images):
+   their destructor does not lock the conductor again *)
+Lemma on_chan_error_no_hang x s : snd (on_chan_error x s) = false.
+Proof. unfold on_chan_error. cbn [snd]. apply Bool.not_true_is_false. intros H. apply existsb_exists in H.
+  destruct H as (o & Hin & Hd). unfold chan_dropped in Hin. apply in_flat_map in Hin. destruct Hin as ([r e] & _ & Hx).
+  cbn [fst snd] in Hx. destruct (chan_hit KSub x e) as [o'|]; [|destruct Hx].
+  destruct (chan_removed KSub x (r, e) && negb (o_user o')); [|destruct Hx]. destruct Hx as [<-|[]].
+  unfold dtor_locked in Hd. rewrite chan_closed_obj_closed in Hd. discriminate. Qed.
+
 Lemma on_event_no_hang ev s : snd (on_event ev s) = false.
-Proof. destruct ev; cbn [on_event]; repeat dmatch; try reflexivity. cbn. eapply close_all_no_hang'; eauto. Qed.
+Proof. destruct ev; cbn [on_event]; repeat dmatch; try reflexivity; [cbn; eapply close_all_no_hang'; eauto|apply on_chan_error_no_hang]. Qed.
 
 Lemma hc_service_no_hang c t s : snd (hc_service c t s) = false.
 Proof. unfold hc_service. dmatch; auto. destruct (close_all s) as [[s1 cbs] hang] eqn:E. apply close_all_no_hang' in E. subst. reflexivity. Qed.
@@ -813,7 +863,8 @@ Proof. destruct o; cbn [step].
   - unfold do_work. destruct b; try exact I.
     + cbn. pose proof (heartbeat_check_no_hang c s) as H. destruct (heartbeat_check c s) as [[[s2 cbs2] hang2] r]. cbn in H. subst. exact I.
     + pose proof (on_event_no_hang e s) as H1. destruct (on_event e s) as [[s1 cbs1] hang1]. cbn in H1. subst.
-      pose proof (heartbeat_check_no_hang c s1) as H. destruct (heartbeat_check c s1) as [[[s2 cbs2] hang2] r]. cbn in H. subst. exact I. Qed.
+      pose proof (heartbeat_check_no_hang c s1) as H. destruct (heartbeat_check c s1) as [[[s2 cbs2] hang2] r]. cbn in H. subst. exact I.
+  - unfold do_close_handle. repeat dmatch; exact I. Qed.
 
 Lemma run_total c ops : forall s, Forall (fun x : out => fine (fst (fst x))) (snd (run c s ops)).
 Proof. induction ops as [|o ops IH]; intros s; cbn; [constructor|].
